@@ -126,11 +126,16 @@ func (reader *CollectionReader) StartRead(ctx context.Context) {
 					Timestamp:   info.CreateTime,
 				})
 			}
+			// the listing and the watch (or two puts of one collection) can announce the same collection twice:
+			// the second notification has no further effect
+			if _, loaded := reader.replicateCollectionMap.LoadOrStore(info.ID, info); loaded {
+				collectionLog.Info("the collection has been handled by this reader, skip the repeated notification")
+				return true
+			}
 			if err := reader.channelManager.StartReadCollection(ctx, &dbInfo, info, startPositions, nil); err != nil {
 				collectionLog.Warn("fail to start to replicate the collection data in the watch process", zap.Any("info", info), zap.Error(err))
 				reader.sendError(err)
 			}
-			reader.replicateCollectionMap.Store(info.ID, info)
 			collectionLog.Info("has started to read collection")
 			return true
 		})
@@ -292,11 +297,14 @@ func (reader *CollectionReader) StartRead(ctx context.Context) {
 					return v.GetChannelName()
 				})),
 			)
+			if _, loaded := reader.replicateCollectionMap.LoadOrStore(info.ID, info); loaded {
+				readerLog.Info("the collection has been handled by this reader, skip the repeated notification", zap.String("name", info.Schema.Name), zap.Int64("collection_id", info.ID))
+				continue
+			}
 			if err := reader.channelManager.StartReadCollection(ctx, &dbInfo, info, seekPositions, channelStartTsMap); err != nil {
 				readerLog.Warn("fail to start to replicate the collection data", zap.Any("collection", info), zap.Error(err))
 				reader.sendError(err)
 			}
-			reader.replicateCollectionMap.Store(info.ID, info)
 		}
 		_, err = reader.metaOp.GetAllPartition(ctx, func(info *pb.PartitionInfo) bool {
 			if _, ok := repeatedCollectionID[info.CollectionId]; ok {
